@@ -273,7 +273,8 @@ class Interp:
             if f.id == "getattr" and len(c.args) >= 2:
                 base, nm = argk[0], argk[1]
                 if base is not None and len(c.args) == 2:
-                    self.op("getattr", c, base, {"AttributeError": base})
+                    # ... and, when the object is a module, whatever a lazily produced attribute raises on import (six.moves.dbm_gnu without _gdbm)
+                    self.op("getattr", c, base, {"AttributeError": base, "ImportError": base & frozenset({"module"})} if (base & frozenset({"module"})) else {"AttributeError": base})
                 if nm is not None:
                     self.op("getattr-name", c, nm, {"TypeError": nm - STR})
                 if base is not None and base <= {"module"}:
